@@ -155,6 +155,9 @@ class Patch(dict[str, Any]):
             case None:
                 dicts.remove(cast(dict[Any, Any], body), path)
             case collections.abc.Mapping():
+                # As in the merge-patches: a mapping overwrites a non-mapping value (incl. null).
+                if not isinstance(dicts.resolve(body, path, value), collections.abc.Mapping):
+                    dicts.ensure(cast(dict[Any, Any], body), path, {})
                 for key, val in value.items():
                     self._apply_patch(body, path + (key,), val)
             case _:
